@@ -78,6 +78,7 @@ def hexd (n : Nat) : Char := "0123456789abcdef".toList.getD n '?'
 instance : Show Bytes := ⟨fun b => "x" ++ String.mk (b.flatMap fun x => [hexd (x.toNat / 16), hexd (x.toNat % 16)])⟩
 instance : Show (List Int) := ⟨fun l => "[" ++ ",".intercalate (l.map toString) ++ "]"⟩
 instance : Show (Int × Int) := ⟨fun p => s!"({p.1}, {p.2})"⟩
+instance : Show (List Int × List Int × List Int) := ⟨fun p => "(" ++ Show.sh p.1 ++ ", " ++ Show.sh p.2.1 ++ ", " ++ Show.sh p.2.2 ++ ")"⟩
 instance [Show α] : Show (R α) := ⟨fun r => match r with | .ok v => Show.sh v | .error e => "err:" ++ showE e⟩
 '''
 
@@ -134,7 +135,7 @@ def main():
                 ptypes[x.arg] = x.annotation.id
         ranges = spec.get("ranges", {})
         static = any(getattr(d, "id", None) == "staticmethod" for d in node.decorator_list) or cls is None
-        ncases = 1 if not pyparams else a.n
+        ncases = 1 if (not pyparams or spec.get("mutates")) else a.n
         for _ in range(ncases):
             pyargs, leanargs, proofs = [], [], []
             for p in pyparams:
@@ -153,6 +154,10 @@ def main():
                         vals.append(rand_int(rng, lo, hi))
                     pyargs.append(pymod.PTPTime(*vals))
                     leanargs += [lean_int(v) for v in vals]
+                elif isinstance(t, tuple) and t[0] == "Golay" and spec.get("mutates"):
+                    fresh_obj = pymod.Golay()            # tables as the constructor leaves them: [0] * GOLAY_SIZE
+                    pyargs.append(fresh_obj)
+                    leanargs += ["(List.replicate %d (0 : Int))" % len(getattr(fresh_obj, fld)) for fld, _ in t[1]]
                 elif isinstance(t, tuple) and t[0] == "Golay":
                     if golay is None:
                         golay = pymod.Golay()
@@ -200,7 +205,10 @@ def main():
                 pyargs[1] = rng.randrange(1 << 13)
                 leanargs[-2:] = [lean_int(pyargs[1]), lean_int(pyargs[2])]
             try:
-                if static and cls is not None:
+                if spec.get("mutates"):
+                    getattr(obj, "__wrapped__", obj)(*pyargs)        # past the lru_cache, which the translation treats as transparent
+                    r = "(" + ", ".join(canon(getattr(pyargs[0], a_)) for a_ in spec["mutates"]) + ")"
+                elif static and cls is not None:
                     r = canon(obj(*pyargs))
                 elif cls is not None:
                     r = canon(obj(*pyargs))            # unbound method: first argument is self
